@@ -10,6 +10,7 @@ GHOST = ["m:fetch_payment_info", "m:wait_payment", "m:mark_succeeded", "m:mark_f
 def common_head(u):
     u.raw("use vstd::prelude::*;\nuse vstd::std_specs::cmp::OrdSpec;\nuse ::std::sync::Arc;\nverus! {\n")
     u.env("prelude.rs")
+    u.env("std_extra.rs")
     u.canary_decls()
     u.env("std_shadow.rs")
     u.env("anyhow.rs")
